@@ -45,14 +45,14 @@ func (f *Isqrt) Call(s *slip.Scope, args slip.List, depth int) (result slip.Obje
 	case *slip.Bignum:
 		// The root goes into a new value, the argument must not change.
 		var z big.Int
-		result = (*slip.Bignum)(z.Sqrt((*big.Int)(ta)))
+		result = intReduce(z.Sqrt((*big.Int)(ta)))
 	case *slip.LongFloat:
 		var (
 			z  big.Int
 			zf big.Float
 		)
 		bi, _ := zf.Sqrt((*big.Float)(ta)).Int(&z)
-		result = (*slip.Bignum)(bi)
+		result = intReduce(bi)
 	case slip.Real:
 		rv := ta.RealValue()
 		if rv < 0.0 {
